@@ -4,6 +4,9 @@ package fix
 
 import (
 	"context"
+	"crypto/cipher"
+	"crypto/sha256"
+	"encoding/binary"
 	"fmt"
 	"os"
 	"path/filepath"
@@ -13,6 +16,7 @@ import (
 	"go.uber.org/zap/zapcore"
 
 	"github.com/drand/drand/v2/common"
+	"github.com/drand/drand/v2/common/key"
 	"github.com/drand/drand/v2/common/log"
 	"github.com/drand/drand/v2/crypto"
 	"github.com/drand/drand/v2/internal/chain"
@@ -177,4 +181,41 @@ func copyFile(from, to string) error {
 		return err
 	}
 	return os.WriteFile(to, b, 0o660)
+}
+
+// detStream is a deterministic cipher.Stream (SHA-256 in counter mode over a label): key material derived from it is
+// the same in every process of a check (parent and worker processes must agree on it to replay each other's findings).
+type detStream struct {
+	seed [32]byte
+	ctr  uint64
+	buf  []byte
+}
+
+func (d *detStream) XORKeyStream(dst, src []byte) {
+	for i := range src {
+		if len(d.buf) == 0 {
+			var c [8]byte
+			binary.BigEndian.PutUint64(c[:], d.ctr)
+			d.ctr++
+			h := sha256.Sum256(append(d.seed[:], c[:]...))
+			d.buf = h[:]
+		}
+		dst[i] = src[i] ^ d.buf[0]
+		d.buf = d.buf[1:]
+	}
+}
+
+// DetStream returns a deterministic random stream for the label.
+func DetStream(label string) cipher.Stream {
+	return &detStream{seed: sha256.Sum256([]byte(label))}
+}
+
+// DetKeyPair builds a validly self-signed key pair whose private scalar is derived from the label.
+func DetKeyPair(label, address string, sch *crypto.Scheme) *key.Pair {
+	k := sch.KeyGroup.Scalar().Pick(DetStream("keypair/" + sch.Name + "/" + label))
+	p := &key.Pair{Key: k, Public: &key.Identity{Key: sch.KeyGroup.Point().Mul(k, nil), Addr: address, Scheme: sch}}
+	if err := p.SelfSign(); err != nil {
+		panic(err)
+	}
+	return p
 }
